@@ -33,7 +33,7 @@ use rs_matter::im::GenericPath;
 use rs_matter::transport::session::MAX_CAT_IDS_PER_NOC;
 use rs_matter::Matter;
 
-fn mode_of(s: &str) -> Option<AuthMode> {
+pub(crate) fn mode_of(s: &str) -> Option<AuthMode> {
     match s {
         "p" => Some(AuthMode::Pase),
         "c" => Some(AuthMode::Case),
@@ -42,7 +42,7 @@ fn mode_of(s: &str) -> Option<AuthMode> {
     }
 }
 
-fn opt_num<T: core::str::FromStr>(s: &str) -> Option<T> {
+pub(crate) fn opt_num<T: core::str::FromStr>(s: &str) -> Option<T> {
     if s == "*" || s == "-" {
         None
     } else {
@@ -50,7 +50,7 @@ fn opt_num<T: core::str::FromStr>(s: &str) -> Option<T> {
     }
 }
 
-fn reset(matter: &Matter<'_>) {
+pub(crate) fn reset(matter: &Matter<'_>) {
     matter.with_state(|state| {
         let idxs: Vec<NonZeroU8> = state.fabrics.iter().map(|f| f.fab_idx()).collect();
         for i in idxs {
@@ -87,12 +87,12 @@ fn build_entry(priv_bits: u8, mode: AuthMode, subjects: &str, targets: &str) -> 
     Some(e)
 }
 
-struct QStat {
-    allow: bool,
-    pase: bool,
+pub(crate) struct QStat {
+    pub allow: bool,
+    pub pase: bool,
 }
 
-fn run_op(matter: &Matter<'_>, op: &str, out: &mut Out) -> (String, Option<QStat>) {
+pub(crate) fn run_op(matter: &Matter<'_>, op: &str, out: &mut Out) -> (String, Option<QStat>) {
     let w: Vec<&str> = op.split_whitespace().collect();
     match w.as_slice() {
         ["caps", f, a, s, t, g, e, c] => {
@@ -603,7 +603,7 @@ fn caps_line() -> String {
     )
 }
 
-fn with_matter<R: Send + 'static>(f: impl FnOnce(&Matter<'_>) -> R + Send + 'static) -> R {
+pub(crate) fn with_matter<R: Send + 'static>(f: impl FnOnce(&Matter<'_>) -> R + Send + 'static) -> R {
     // `Matter` is large: build it on a big stack, once per run.
     std::thread::Builder::new()
         .stack_size(256 * 1024 * 1024)
